@@ -1,7 +1,7 @@
 (* C19 — Ordering, sign, remainder, sums and identities are coherent with the value. *)
 From Coq Require Import Reals ZArith List Bool Lra Lia.
 From RL Require Import Base.Num Base.Str Base.NumR Base.Outcome Model.Dual Model.Number
-  Proofs.NumRP Proofs.DualP Proofs.Dual2P Proofs.LayoutP Proofs.AD1 Proofs.OrdP Proofs.NumberP.
+  Proofs.NumRP Proofs.DualP Proofs.Dual2P Proofs.LayoutP Proofs.RemEq Proofs.AD1 Proofs.OrdP Proofs.NumberP.
 Import ListNotations.
 Open Scope R_scope.
 
@@ -71,6 +71,18 @@ Theorem C19_rem2 : forall p a b, wf2 a -> wf2 b -> (p = true -> vs2 a = vs2 b) -
   (forall v, coef1 (d2rem p a b) v = coef1 a v - q * coef1 b v) /\
   (forall u v, coef2 (d2rem p a b) u v = coef2 a u v - q * coef2 b u v).
 Proof. intros p a b WA WB HP q. destruct (d2rem_spec p a b WA WB HP) as (W & R & C & H & _). auto. Qed.
+(* the remainder at EQUAL MAGNITUDES (quotient exactly +1 / -1): value zero, every derivative the difference / the sum -
+   so x % x is the zero number, at both orders *)
+Theorem C19_rem_equal : forall p (a b : dual R), wf a -> wf b -> (p = true -> vs a = vs b) -> re b <> 0 ->
+  (re a = re b -> re (drem p a b) = 0 /\ forall v, coef (drem p a b) v = coef a v - coef b v) /\
+  (re a = - re b -> re (drem p a b) = 0 /\ forall v, coef (drem p a b) v = coef a v + coef b v).
+Proof. exact drem_equal. Qed.
+Theorem C19_rem_equal2 : forall p (a b : dual2 R), wf2 a -> wf2 b -> (p = true -> vs2 a = vs2 b) -> re2 b <> 0 ->
+  (re2 a = re2 b -> re2 (d2rem p a b) = 0 /\ (forall v, coef1 (d2rem p a b) v = coef1 a v - coef1 b v) /\
+                    forall u v, coef2 (d2rem p a b) u v = coef2 a u v - coef2 b u v) /\
+  (re2 a = - re2 b -> re2 (d2rem p a b) = 0 /\ (forall v, coef1 (d2rem p a b) v = coef1 a v + coef1 b v) /\
+                    forall u v, coef2 (d2rem p a b) u v = coef2 a u v + coef2 b u v).
+Proof. exact d2rem_equal. Qed.
 Theorem C19_rem_float : forall (a : dual R) r, wf a ->
   drem_f a r ≈ drem false a (cst r) /\ frem_d r a = drem false (cst r) a /\
   re (drem_f a r) = Rfmod (re a) r.
